@@ -134,3 +134,6 @@ pub fn from_to_float_helper_f32(neg: bool, abs: u128, frac_bits: u32, int_bits: 
 pub fn from_to_float_helper_f64(neg: bool, abs: u128, frac_bits: u32, int_bits: u32) -> u64 {
     f64::from_to_float_helper(ToFloatHelper { neg, abs }, frac_bits, int_bits).to_bits()
 }
+
+pub use crate::display::verif::Raw as FmtRaw;
+pub use crate::from_str::verif::{error_kind as parse_error_kind, from_str};
